@@ -55,7 +55,8 @@ TABLE = {
             ('OpyVerif.Proofs.GrowProg', 'Opy', None), ('OpyVerif.Proofs.GrowCode', 'Opy', None), ('OpyVerif.Generated.Grow', 'Opy.Gen', None),
             ('OpyVerif.Proofs.Forest', 'Opy', None),
             ('OpyVerif.Proofs.PopLoops', 'Opy', None), ('OpyVerif.Proofs.PopLoopsCode', 'Opy', None), ('OpyVerif.Generated.PopLoops', 'Opy.Gen', None),
-            ('OpyVerif.Proofs.TreesProg', 'Opy', None), ('OpyVerif.Proofs.TreesCode', 'Opy', None), ('OpyVerif.Generated.Trees', 'Opy.Gen', None)],
+            ('OpyVerif.Proofs.TreesProg', 'Opy', None), ('OpyVerif.Proofs.TreesCode', 'Opy', None), ('OpyVerif.Generated.Trees', 'Opy.Gen', None),
+            ('OpyVerif.Proofs.GPRun', 'Opy', None), ('OpyVerif.Proofs.GPRunCode', 'Opy', None), ('OpyVerif.Generated.GPRun', 'Opy.Gen', None)],
     'C09': [('OpyVerif.Proofs.C09', 'Opy.PNode', None), ('OpyVerif.Proofs.C09repro', 'Opy.PNode', None),
             ('OpyVerif.Proofs.ReproProg', 'Opy', None), ('OpyVerif.Proofs.ReproCode', 'Opy', None), ('OpyVerif.Generated.Repro', 'Opy.Gen', None),
             ('OpyVerif.Proofs.SelectProg', 'Opy', r'tournProg'), ('OpyVerif.Generated.Select', 'Opy.Gen', r'tournProg_eq'),
